@@ -1017,6 +1017,8 @@ def phf_get(I, callee, args, st, n, fidx):
 @prim("core::str::len", "std::string::String::len")
 def s_len(I, callee, args, st, n, fidx):
     a = args[0]
+    if isinstance(a, Const) and a.t == "str" and isinstance(a.v, str):
+        return val(Const("int", len(a.v.encode("utf-8"))), st)    # length of a string literal
     if isinstance(a, Term) and a.op == "as_str" and len(a.args) == 2:
         if eof_known(st, a.args[0].v, a.args[1].v) is True:
             return val(Const("int", 0), st)    # nothing left at end of input
